@@ -360,6 +360,49 @@ fn gen_hist_huge(rng: &mut Rng) -> Hist {
     Hist { wire_chunks, msgs, csids: csids.to_vec(), schedule: "three-9-MiB-messages-round-robin", cs }
 }
 
+/// a message in flight on one chunk stream while very many chunks and very many complete messages
+/// pass on others: first a whole message of 4,097-70,000 chunks, then 5,000 one-chunk messages
+/// on four further chunk streams, each between two chunks of the waiting message
+fn gen_hist_idle(rng: &mut Rng) -> Hist {
+    let mut enc = Encoder::new();
+    let cs = *rng.pick(&[1usize, 16, 16, 128]);
+    enc.chunk_size = cs;
+    let tagged = |len: usize, a: u64| -> Vec<u8> { (0..len).map(|i| ((i as u64).wrapping_mul(0x9E37_79B9).wrapping_add(a) >> 13) as u8).collect() };
+    let mut msgs: Vec<Msg> = Vec::new();
+    let mut csids: Vec<u32> = Vec::new();
+    let mut wire_chunks: Vec<(usize, Vec<u8>)> = Vec::new();
+    let waiting_csid = *rng.pick(&[3u32, 64, 700]);
+    let a = Msg { type_id: 9, msid: 1, ts: 10, data: tagged(2 * cs + 1 + rng.usize(0, cs - 1), rng.next()) };
+    let ga = enc.encode(&a, &Choice { csid: waiting_csid, form: CsidForm::Min, fmt: 0 });
+    assert!(ga.len() == 3, "harness: waiting message should have three chunks");
+    msgs.push(a);
+    csids.push(waiting_csid);
+    wire_chunks.push((0, ga[0].clone()));
+    let n = if cs <= 16 { *rng.pick(&[4_097usize, 5_000, 70_000]) } else { *rng.pick(&[4_097usize, 5_000, 8_193]) };
+    let b = Msg { type_id: 8, msid: 1, ts: 20, data: tagged(n * cs - rng.usize(0, cs - 1), rng.next()) };
+    let gb = enc.encode(&b, &Choice { csid: 4, form: CsidForm::Min, fmt: 0 });
+    assert!(gb.len() == n, "harness: long message should have the chosen number of chunks");
+    msgs.push(b);
+    csids.push(4);
+    for c in gb {
+        wire_chunks.push((1, c));
+    }
+    wire_chunks.push((0, ga[1].clone()));
+    for i in 0..5_000usize {
+        let csid = 5 + (i % 4) as u32;
+        let m = Msg { type_id: 8, msid: 1, ts: 30 + i as u32, data: vec![i as u8; 1 + (i % 3).min(cs - 1)] };
+        let g = enc.encode(&m, &Choice { csid, form: CsidForm::Min, fmt: 0 });
+        let idx = msgs.len();
+        msgs.push(m);
+        csids.push(csid);
+        for c in g {
+            wire_chunks.push((idx, c));
+        }
+    }
+    wire_chunks.push((0, ga[2].clone()));
+    Hist { wire_chunks, msgs, csids, schedule: "one-message-waiting-while-thousands-of-chunks-pass", cs }
+}
+
 fn apply_scs(d: &mut ChunkDeserializer, m: &Msg) {
     if m.type_id == 1 && m.data.len() >= 4 {
         let v = u32::from_be_bytes([m.data[0], m.data[1], m.data[2], m.data[3]]) & 0x7FFF_FFFF;
@@ -384,7 +427,10 @@ fn run_hist(h: Hist, rng: &mut Rng, out: &mut Out) {
         let mut first_overlap: Option<usize> = None;
         let mut partial: Vec<usize> = Vec::new(); // message indices partially assembled
         let mut seen_chunks = vec![0usize; h.msgs.len()];
-        let total_chunks: Vec<usize> = (0..h.msgs.len()).map(|i| h.wire_chunks.iter().filter(|c| c.0 == i).count()).collect();
+        let mut total_chunks: Vec<usize> = vec![0usize; h.msgs.len()];
+        for c in h.wire_chunks.iter() {
+            total_chunks[c.0] += 1;
+        }
         for (mi, c) in h.wire_chunks.iter() {
             if first_overlap.is_none() && partial.iter().any(|p| h.csids[*p] != h.csids[*mi]) {
                 first_overlap = Some(off);
@@ -493,7 +539,7 @@ impl Check for C16 {
     }
     fn plan(&self, tier: Tier) -> Plan {
         let mut p = Plan::new(tier.pick(2_000_000, 60_000_000), tier.pick(30.0, 360.0));
-        p.mandatory = 1;
+        p.mandatory = 4;
         p
     }
     fn selftest(&self) -> Result<(), String> {
@@ -502,6 +548,8 @@ impl Check for C16 {
     fn run_case(&self, _tier: Tier, k: u64, rng: &mut Rng, out: &mut Out) {
         let h = if k == 0 {
             gen_hist_huge(rng)
+        } else if k <= 3 || rng.chance(1, 20_000) {
+            gen_hist_idle(rng)
         } else if rng.chance(1, 4) {
             gen_hist_scs(rng)
         } else {
@@ -510,7 +558,7 @@ impl Check for C16 {
         run_hist(h, rng, out);
     }
     fn rule(&self) -> String {
-        "1-3 rounds of 2-6 messages (1-9 chunks each, chunk sizes {1,2,5,16,128,200}) on distinct chunk stream ids of all three csid forms, encoded by the independent encoder and interleaved by a scheduler that keeps each message's chunks in order: no-overlap, audio-inside-video, round-robin, pairwise, random. Case 0: three 9 MiB messages in flight at once at chunk size 1 MiB, round-robin (more unfinished data than one maximum-size message). A quarter of the histories instead interleave 1-4 messages (0-3000 bytes) per round with up to five in-band SetChunkSize messages on chunk stream 2 placed between chunks of the messages in flight (new sizes {1, 2, 5, 16, 100, 128, 200, 300, 1000, 4096, 65536, 2^31-1}: below, at and above the lengths in flight); every later chunk, also of messages already begun, is cut at the new size, and the deserializer is told the new size when the SetChunkSize message is delivered, as the sessions do. In a fifth of the multi-chunk messages that start with a type-0 header the continuation chunks repeat that full header instead of using type 3. One history in 400 first opens 1,106 chunk streams with one small message each. One message in twelve is an Abort (type 2) naming a chunk stream id of its group - to the deserializer a message like any other, since the sender goes on with the message it names. Payload bytes are tagged with their message index. Expected deliveries (each message when its last chunk arrives) come from independent per-csid reassembly. The stream is fed in two phases around the first overlap point (first chunk arriving on a csid while another csid has a partial message), each in 3 partitions. distinct = (messages, schedule, first-overlap offset bucket, chunk count).".to_string()
+        "1-3 rounds of 2-6 messages (1-9 chunks each, chunk sizes {1,2,5,16,128,200}) on distinct chunk stream ids of all three csid forms, encoded by the independent encoder and interleaved by a scheduler that keeps each message's chunks in order: no-overlap, audio-inside-video, round-robin, pairwise, random. Case 0: three 9 MiB messages in flight at once at chunk size 1 MiB, round-robin (more unfinished data than one maximum-size message). Cases 1-3 (and one history in 20,000): a three-chunk message waits on its chunk stream while a whole message of 4,097-70,000 chunks and then 5,000 one-chunk messages on four further chunk streams pass between its chunks. A quarter of the histories instead interleave 1-4 messages (0-3000 bytes) per round with up to five in-band SetChunkSize messages on chunk stream 2 placed between chunks of the messages in flight (new sizes {1, 2, 5, 16, 100, 128, 200, 300, 1000, 4096, 65536, 2^31-1}: below, at and above the lengths in flight); every later chunk, also of messages already begun, is cut at the new size, and the deserializer is told the new size when the SetChunkSize message is delivered, as the sessions do. In a fifth of the multi-chunk messages that start with a type-0 header the continuation chunks repeat that full header instead of using type 3. One history in 400 first opens 1,106 chunk streams with one small message each. One message in twelve is an Abort (type 2) naming a chunk stream id of its group - to the deserializer a message like any other, since the sender goes on with the message it names. Payload bytes are tagged with their message index. Expected deliveries (each message when its last chunk arrives) come from independent per-csid reassembly. The stream is fed in two phases around the first overlap point (first chunk arriving on a csid while another csid has a partial message), each in 3 partitions. distinct = (messages, schedule, first-overlap offset bucket, chunk count).".to_string()
     }
     fn assumptions(&self) -> Vec<String> {
         vec![
